@@ -437,6 +437,11 @@ class PinWorld:
         if info.ball_switches:
             occupied = {b.switch for b in self.balls if b.kind == "dev" and b.dev == info.name and b is not ball}
             sw = None
+            if not fell_back and None in occupied and info.jam_switch is not None:
+                # balls of this device lie between their switches (shaken off): a ball rolling in ends up behind them
+                # and reaches a switch only when they settle
+                ball.switch = None
+                return
             if fell_back and info.jam_switch is not None and info.jam_switch not in occupied:
                 sw = info.jam_switch
             else:
